@@ -112,6 +112,12 @@ impl AccessControl for Lib {}
 #[contractimpl(contracttrait)]
 impl Ownable for Lib {}
 
+const DAY: u32 = 17_280;
+/// max_entry_ttl of the long-idle family (about one year): persistent / instance entries of the
+/// unmodified code stay live over every idle gap
+const LONG_TTL: u32 = 6_312_000;
+const GAPS: [u32; 3] = [DAY, 31 * DAY, 100 * DAY];
+
 const N: usize = 5; // accounts
 const R: usize = 5; // displayed roles
 
@@ -166,7 +172,9 @@ fn show(o: Option<usize>) -> String {
 
 impl Sim {
     fn new(t: &mut Trace, what: &str, kind: Kind, min_temp: u32, start: u32) -> Sim {
-        let max_ttl = 3_000_000;
+        Self::new_ttl(t, what, kind, min_temp, start, 3_000_000)
+    }
+    fn new_ttl(t: &mut Trace, what: &str, kind: Kind, min_temp: u32, start: u32, max_ttl: u32) -> Sim {
         let e = new_env(start, min_temp, max_ttl);
         let u = Universe::new(&e, N);
         let (c, admin, owner) = match kind {
@@ -711,6 +719,90 @@ fn directed(t: &mut Trace, thorough: bool) {
 }
 
 // ------------------------------------------------------------------------------------------
+// long-idle family: everything that must persist (membership, indices, counts, role admins,
+// existing roles, admin, owner) survives a day, a month and a hundred days of silence
+// ------------------------------------------------------------------------------------------
+
+fn long_idle_directed(t: &mut Trace) {
+    for kind in [Kind::Lib, Kind::Nft] {
+        let lib = kind == Kind::Lib;
+        let mut s = Sim::new_ttl(t, "long-idle directed", kind, 1, 100, LONG_TTL);
+        // build up: members, a revoked member, role admins (chain 0 <- 2, 1 <- "" ), owner
+        s.grant(t, false, 1, 0, 0, &[0]);
+        s.grant(t, false, 2, 0, 0, &[0]);
+        s.grant(t, false, 3, 0, 0, &[0]);
+        s.grant(t, false, 2, 1, 0, &[0]);
+        s.grant(t, false, 3, 1, 0, &[0]);
+        s.grant(t, false, 4, 2, 0, &[0]);
+        s.grant(t, false, 4, EMPTY_ROLE, 0, &[0]);
+        s.set_ra(t, false, 0, 2, &[0]);
+        s.set_ra(t, false, 1, EMPTY_ROLE, &[0]);
+        s.revoke(t, false, 1, 0, 0, &[0]); // first of three: swap
+        s.only_role(t, 2, 0, 2, &[2]); // (nft: mints token 0 to account 2)
+        let retry = |s: &mut Sim, t: &mut Trace| {
+            s.only_role(t, 2, 0, 2, &[2]); // member: passes
+            s.only_role(t, 1, 0, 2, &[1]); // revoked member: refused
+            s.only_role(t, 4, 0, 2, &[4]); // never a member: refused
+            s.has_role_guard(t, 2, 1, false, 0, &[2]);
+            s.has_role_guard(t, 1, 1, false, 0, &[1]);
+            s.has_any(t, 3, false, &[3]);
+            s.has_any(t, 4, false, &[4]);
+            s.only_any(t, 3, false, &[3]);
+            s.only_any(t, 1, false, &[1]);
+            s.rt(t, "adm", "guarded", 0, 0, &[0]);
+            s.rt(t, "adm", "guarded", 0, 0, &[1, 2, 3, 4]);
+            if lib {
+                s.rt(t, "own", "guarded", 0, 0, &[1]);
+                s.rt(t, "own", "guarded", 0, 0, &[0, 2, 3, 4]);
+                s.ensure_aor(t, 0, 4, &[]);
+                s.ensure_aor(t, 0, 3, &[]);
+            }
+            // the holder of role 2 still administers role 0, the holder of "" role 1
+            s.grant(t, false, 1, 0, 4, &[4]);
+            s.revoke(t, false, 1, 0, 4, &[4]);
+            s.grant(t, false, 1, 1, 4, &[4]);
+            s.revoke(t, false, 1, 1, 4, &[4]);
+            s.grant(t, false, 1, 0, 3, &[3]); // a plain member does not
+        };
+        retry(&mut s, t);
+        for g in GAPS {
+            s.advance(t, g); // one jump, nothing touched in between
+            retry(&mut s, t);
+        }
+        // renounced stays renounced; role admins keep working
+        s.rt(t, "adm", "renounce", 0, 0, &[0]);
+        if lib {
+            s.rt(t, "own", "renounce", 0, 0, &[1]);
+        }
+        for g in GAPS {
+            s.advance(t, g);
+            s.rt(t, "adm", "guarded", 0, 0, &[0, 1, 2, 3, 4]);
+            s.set_ra(t, false, 3, 0, &[0, 1, 2, 3, 4]);
+            s.grant(t, false, 1, 3, 0, &[0]);
+            s.rt(t, "adm", "offer", 1, s.now + 10, &[0, 1, 2, 3, 4]);
+            if lib {
+                s.rt(t, "own", "guarded", 0, 0, &[0, 1, 2, 3, 4]);
+            }
+            s.grant(t, false, 1, 0, 4, &[4]);
+            s.revoke(t, false, 1, 0, 4, &[4]);
+            s.only_role(t, 2, 0, 2, &[2]);
+        }
+    }
+    // the ownable example
+    let mut s = Sim::new_ttl(t, "long-idle directed", Kind::Own, 1, 100, LONG_TTL);
+    for g in GAPS {
+        s.advance(t, g);
+        s.rt(t, "own", "guarded", 0, 0, &[0]);
+        s.rt(t, "own", "guarded", 0, 0, &[1, 2, 3, 4]);
+    }
+    s.rt(t, "own", "renounce", 0, 0, &[0]);
+    for g in GAPS {
+        s.advance(t, g);
+        s.rt(t, "own", "guarded", 0, 0, &[0, 1, 2, 3, 4]);
+    }
+}
+
+// ------------------------------------------------------------------------------------------
 // generated sequences
 // ------------------------------------------------------------------------------------------
 
@@ -774,17 +866,31 @@ fn gen_lu(rng: &mut Rng, s: &Sim) -> u32 {
     }
 }
 
-fn random_sequence(t: &mut Trace, rng: &mut Rng, k: u64, seed: u64, len: u64) {
+fn random_sequence(t: &mut Trace, rng: &mut Rng, k: u64, seed: u64, len: u64, long: bool) {
     let kind = match rng.below(10) {
         0..=5 => Kind::Lib,
         6..=8 => Kind::Nft,
         _ => Kind::Own,
     };
     let min_temp = if rng.chance(50) { 1 } else { 16 };
-    let mut s = Sim::new(t, &format!("rand k={} seed={}", k, seed), kind, min_temp, *rng.pick(&[2u32, 100, 5000]));
+    let start = *rng.pick(&[2u32, 100, 5000]);
+    let mut s = if long {
+        Sim::new_ttl(t, &format!("long-idle rand k={} seed={}", k, seed), kind, min_temp, start, LONG_TTL)
+    } else {
+        Sim::new(t, &format!("rand k={} seed={}", k, seed), kind, min_temp, start)
+    };
+    let mut idle_total: u32 = 0;
     // how grant-heavy this sequence is (fuller roles give richer swap-and-pop patterns)
     let grant_bias = rng.below(3);
-    for _ in 0..len {
+    for step in 0..len {
+        // long-idle family: after some state has been built, a day / a month / a hundred days
+        // pass in ONE jump (nothing is read or written in between)
+        if long && step >= 8 && idle_total < 240 * DAY && rng.chance(12) {
+            let g = *rng.pick(&GAPS);
+            idle_total += g;
+            s.advance(t, g);
+            continue;
+        }
         let x = rng.below(100);
         if kind == Kind::Own {
             match x {
@@ -963,8 +1069,14 @@ fn main() {
     if arg_str("--skip-directed").is_none() {
         directed(&mut t, thorough);
     }
+    if arg_str("--skip-directed").is_none() {
+        long_idle_directed(&mut t);
+    }
+    for k in 0..(if thorough { 40 } else { 6 }) {
+        random_sequence(&mut t, &mut rng, k, seed, len, true);
+    }
     for k in 0..nseq {
-        random_sequence(&mut t, &mut rng, k, seed, len);
+        random_sequence(&mut t, &mut rng, k, seed, len, false);
     }
     t.finish();
 }
